@@ -51,35 +51,36 @@ pub trait Encoder: Write {}
 
 pub trait Decoder: Read {}
 
-#[verifier::external_body]
-pub struct StateVector { opaque: () }
+#[verifier::external_body] pub struct StateVector { opaque: () }
 
-#[verifier::external_body]
-pub struct AwarenessUpdate { opaque: () }
+#[verifier::external_body] pub struct AwarenessUpdate { opaque: () }
 
 pub uninterp spec fn sv_enc(x: StateVector) -> Seq<u8>;
 pub uninterp spec fn sv_dec(b: Seq<u8>) -> Option<StateVector>;
 pub uninterp spec fn au_enc(x: AwarenessUpdate) -> Seq<u8>;
 pub uninterp spec fn au_dec(b: Seq<u8>) -> Option<AwarenessUpdate>;
 
-/// A-SV: the ONE assumption about StateVector: decode_v1(encode_v1(x)) == Ok(x)
-pub axiom fn law_sv_round_trip(x: StateVector)
-    ensures sv_dec(sv_enc(x)) == Some(x);
+/// A-SV (ASSUMED law, an axiom spelled as an external_body proof fn so that the trust scanner lists it):
+/// the ONE assumption about StateVector: decode_v1(encode_v1(x)) == Ok(x)
+#[verifier::external_body] pub proof fn law_sv_round_trip(x: StateVector)
+    ensures sv_dec(sv_enc(x)) == Some(x),
+{
+}
 
-/// A-AU: the ONE assumption about AwarenessUpdate: decode_v1(encode_v1(x)) == Ok(x)
-pub axiom fn law_au_round_trip(x: AwarenessUpdate)
-    ensures au_dec(au_enc(x)) == Some(x);
+/// A-AU (ASSUMED law): the ONE assumption about AwarenessUpdate: decode_v1(encode_v1(x)) == Ok(x)
+#[verifier::external_body] pub proof fn law_au_round_trip(x: AwarenessUpdate)
+    ensures au_dec(au_enc(x)) == Some(x),
+{
+}
 
 impl StateVector {
-    #[verifier::external_body]
-    pub fn encode_v1(&self) -> (r: Vec<u8>)
+    #[verifier::external_body] pub fn encode_v1(&self) -> (r: Vec<u8>)
         ensures r@ == sv_enc(*self),
     {
         unimplemented!()
     }
 
-    #[verifier::external_body]
-    pub fn decode_v1(data: &[u8]) -> (r: Result<StateVector, Error>)
+    #[verifier::external_body] pub fn decode_v1(data: &[u8]) -> (r: Result<StateVector, Error>)
         ensures
             match sv_dec(data@) {
                 Some(x) => r is Ok && r->Ok_0 == x,
@@ -91,15 +92,13 @@ impl StateVector {
 }
 
 impl AwarenessUpdate {
-    #[verifier::external_body]
-    pub fn encode_v1(&self) -> (r: Vec<u8>)
+    #[verifier::external_body] pub fn encode_v1(&self) -> (r: Vec<u8>)
         ensures r@ == au_enc(*self),
     {
         unimplemented!()
     }
 
-    #[verifier::external_body]
-    pub fn decode_v1(data: &[u8]) -> (r: Result<AwarenessUpdate, Error>)
+    #[verifier::external_body] pub fn decode_v1(data: &[u8]) -> (r: Result<AwarenessUpdate, Error>)
         ensures
             match au_dec(data@) {
                 Some(x) => r is Ok && r->Ok_0 == x,
@@ -114,9 +113,11 @@ impl AwarenessUpdate {
 pub uninterp spec fn utf8(s: Seq<char>) -> Seq<u8>;
 pub uninterp spec fn from_utf8(b: Seq<u8>) -> Seq<char>;
 
-/// A-STR: decoding the UTF-8 bytes of a string gives the string back
-pub axiom fn law_utf8_round_trip(s: Seq<char>)
-    ensures from_utf8(utf8(s)) == s;
+/// A-STR (ASSUMED law): decoding the UTF-8 bytes of a string gives the string back
+#[verifier::external_body] pub proof fn law_utf8_round_trip(s: Seq<char>)
+    ensures from_utf8(utf8(s)) == s,
+{
+}
 
 impl VxBytes for str {
     open spec fn bytes(&self) -> Seq<u8> {
@@ -124,8 +125,7 @@ impl VxBytes for str {
     }
 
     /// std `str::as_bytes` (trusted: names the bytes of the string)
-    #[verifier::external_body]
-    fn as_ref(&self) -> (r: &[u8]) {
+    #[verifier::external_body] fn as_ref(&self) -> (r: &[u8]) {
         self.as_bytes()
     }
 }
@@ -142,8 +142,7 @@ impl<W: Write> WriteStr for W {}
 pub trait ReadStr: Read {
     /// TRUSTED stand-in for `Read::read_string` (real body: `unsafe { from_utf8_unchecked(self.read_buf()?) }`, not
     /// ingestible and undefined behaviour on non-UTF-8 input, DESIGN A9): read_buf + the uninterpreted conversion
-    #[verifier::external_body]
-    fn read_string(&mut self) -> (res: Result<&str, Error>)
+    #[verifier::external_body] fn read_string(&mut self) -> (res: Result<&str, Error>)
         requires
             old(self).wf(),
         ensures
